@@ -176,6 +176,34 @@ fn public_for(k: usize) -> Public {
     }
 }
 
+/// public-value variants: 0 = distinctive values, 1 = the dummy sentinel (zero block hash, zero
+/// outputs) next to REAL private data, 2 = degenerate zero publics with a real block hash.
+/// Redaction must not depend on what the public half looks like.
+fn public_variant(mut pu: Public, v: usize) -> Public {
+    match v {
+        1 => {
+            pu.block_hash = [0u8; 32];
+            pu.out1 = 0;
+            pu.out2 = 0;
+        }
+        2 => {
+            pu.asset_id = 0;
+            pu.fee = 0;
+            pu.out1 = 0;
+            pu.out2 = 0;
+            pu.nullifier = [0u8; 32];
+            pu.exit1 = [0u8; 32];
+            pu.exit2 = [0u8; 32];
+            pu.block_number = 0;
+        }
+        _ => {}
+    }
+    pu
+}
+thread_local! {
+    static NOT_DUMMY_FLAG: std::cell::Cell<bool> = const { std::cell::Cell::new(true) };
+}
+
 fn bd(b: [u8; 32]) -> BytesDigest {
     BytesDigest::try_from(b).unwrap_or_else(|_| machinery_error("value is not a canonical digest"))
 }
@@ -554,7 +582,7 @@ fn build(kind: usize, pu: &Public, pr: &Private) -> Built {
                     pr.siblings.clone(),
                     pr.positions.clone(),
                     ZkLeafData::new(pr.account, pr.tc, pu.asset_id, pr.amount, pu.out1, pu.out2, pu.fee),
-                    true,
+                    NOT_DUMMY_FLAG.with(|c| c.get()),
                 )
             } else {
                 ZkMerkleProofData::try_from(&inp).unwrap_or_else(|e| machinery_error(&format!("ZkMerkleProofData::try_from: {e}")))
@@ -741,10 +769,14 @@ fn main() {
         .enumerate()
         .map(|(k, (label, pr))| {
             let mut t = Tally { renderings: 0, needle_checks: 0, distinct: vec![], findings: vec![], sample: None, max_needles: 0 };
-            let pu = public_for(k);
             let twin_pr = &privs[(k + 1) % privs.len()].1;
             let needles = needles_of(pr);
             let twin_needles = needles_of(twin_pr);
+            let n_variants = if k < 6 || thorough { 3 } else { 1 };
+            for pv in 0..n_variants {
+            let pu = public_variant(public_for(k), pv);
+            NOT_DUMMY_FLAG.with(|c| c.set(pv != 1));
+            let label = &if pv == 0 { label.clone() } else { format!("{label} / public variant {}", ["distinctive", "dummy sentinel (zero block hash, zero outputs)", "zero publics"][pv]) };
             for kind in 0..KINDS.len() - 1 {
                 let b = build(kind, &pu, pr);
                 // the twin shares the public values and holds other private values; objects whose
@@ -761,6 +793,9 @@ fn main() {
                 };
                 check(label, &b, Some((&tw, &twin_needles[..])), &needles, &mut t);
             }
+            }
+            NOT_DUMMY_FLAG.with(|c| c.set(true));
+            let pu = public_for(k);
             if k < n_prover {
                 let provers = build_provers(&pu, pr);
                 let twins = build_provers(&pu, twin_pr);
